@@ -78,8 +78,9 @@ func DateTimeFromProto(proto *dtpb.DateTime) (DateTime, error) {
 	// zone yields, down to its precision, anchored like a parsed literal.
 	year, month, day := t.Date()
 	switch proto.Precision {
-	case dtpb.DateTime_MICROSECOND:
-		// System DateTimes hold milliseconds at most.
+	case dtpb.DateTime_MICROSECOND, dtpb.DateTime_PRECISION_UNSPECIFIED:
+		// System DateTimes hold milliseconds at most. (An element built without a
+		// precision reads as a full timestamp, as in fhirconv.)
 		t = t.Truncate(time.Millisecond)
 		fallthrough
 	case dtpb.DateTime_MILLISECOND:
